@@ -28,7 +28,7 @@ SKELETONS = [
     R + "variable_impl.go:derivedVariable.Unsubscribe", R + "variable_impl.go:variable.DeriveValueFrom",
 ]
 EXTRA = ["LockExecution", "UnlockExecution", "MarkUnsubscribed", "Invoke", "Trigger", "OnUpdate", "Compute", "Set", "Get",
-         "Add", "Delete", "unsubscribeFromWeightUpdates", "updatePosition", "Apply", "Subtract"]
+         "Add", "Delete", "unsubscribeFromWeightUpdates", "updatePosition", "Apply", "Subtract", "ForEachKey", "DeleteAndReturn"]
 
 
 def regen(ctx):
@@ -48,7 +48,7 @@ SPEC = {
         "C14_derived_set_concurrent", "C14_subtract_concurrent", "C14_skeleton_readableSet_SubtractReactive", "C14_counter_concurrent", "C14_sorted_set_concurrent",
         "C14_sorted_set", "C14_sorted_set_spec", "C14_sorted_set_members", "C14_sorted_set_absent_weight",
         "C14_eviction", "C14_eviction_unique", "C14_eviction_pre", "C14_eviction_concurrent", "C14_eviction_concurrent_safety", "C14_skeleton_ShrinkingMap_GetOrCreate",
-        "C14_eviction_loop_terminates", "C14_eviction_width", "C14_eviction_width_triggered", "C14_eviction_old_loop_witness", "C14_eviction_old_loop_below_top",
+        "C14_eviction_fire", "C14_eviction_old_negative_witness", "C14_eviction_old_fractional_witness", "C14_eviction_old_loop_witness", "C14_eviction_old_loop_below_top",
         "C14_waitgroup_sequential", "C14_waitgroup_counter", "C14_waitgroup_only_if", "C14_waitgroup",
         "C14_deadlock_free", "C14_scripts_ranked", "C14_ranked_deadlock_free",
         "C14_derived_set_old_replace_witness", "C14_counter_old_unsubscribe_witness", "C14_waitgroup_old_race_witness",
